@@ -1,6 +1,9 @@
 """C22  Sorting and selection utilities are correct and stable (DESIGN.md §5.C22)."""
 import itertools
 
+# this check never reads lean/MjProof/Gen: no generated-code lock needed
+USES_GEN = False
+
 META = {
     "technique": "Lean 4 proof (induction: stable-sort invariant over runs and merge passes) + exact differential correspondence with the compiled macros",
     "text": "mjSORT / insertion sort: proved for every length and every total-preorder comparator that the model returns a sorted permutation preserving every ordered subsequence (stability); mjPARTIAL_SORT (heapify, scan, final insertion sort, modelled at heap-operation level): proved for every n and every 1 <= k <= n that the first k outputs are the k smallest elements in sorted order and the tail is untouched (heap invariant by induction, sift-down fuel shown sufficient). The model is hand-written; the tie is a differential run of the unmodified macros of engine_sort.h against the compiled Lean model (exhaustive small scope + seeded random around run boundaries).",
